@@ -636,7 +636,9 @@ fn check_any_input(h: &LineHeader, big: bool, prog: &[u8], cx: &mut Ctx) -> R {
     }
     monotone(&out, h.address_size)?;
     // the model agrees as far as it is defined
-    let m = run_line(h, big, prog);
+    // (tombstone addresses: gimli's documented suppression policy is part of the model here, so that the registers
+    // that keep evolving under it - flags, discriminator, line, file - are still compared)
+    let m = crate::linemodel::run_line_opts(h, big, prog, true);
     for (i, mr) in m.rows.iter().enumerate() {
         match out.get(i) {
             Some(gr) if gr == mr => {}
@@ -647,6 +649,9 @@ fn check_any_input(h: &LineHeader, big: bool, prog: &[u8], cx: &mut Ctx) -> R {
                 }
             }
         }
+    }
+    if matches!(m.end, LineEnd::Done) {
+        ensure!(out.len() <= m.rows.len(), "c04/any-input/extra-row", "gimli yields {} rows, the state machine {} (first extra: {:?})", out.len(), m.rows.len(), out.get(m.rows.len()));
     }
     if m.used_tombstone {
         cx.label("any-input:tombstone-policy");
@@ -659,7 +664,7 @@ impl Prop for C04 {
         "C04"
     }
     fn rule(&self) -> &'static str {
-        "generated headers (versions 2-5, min_inst_len 1-255, max_ops 1-255, line_base -128..127, line_range 1-255, opcode_base 1-255 with arbitrary lengths for non-standard opcodes, v5 directory/file entry formats with 1-7 content types in any order and every supported path/number form, v2-4 tables, header padding, non-zero section offset) x generated multi-sequence programs over the full opcode set (special opcodes incl. all values, every standard opcode, unknown standard/extended opcodes, define_file, padded extended ops, boundary operands) kept well-formed (set_address non-decreasing, below the tombstone range); second mode: all 256 opcode byte values after a generated prefix per header; third mode: arbitrary bytes behind a valid header (validity clauses + model agreement where defined). Oracle: line-number state machine (linemodel.rs): rows on every accessor, header fields, directory/file tables with version-dependent index bases, sequences() bounds, resume_from in reverse and forward order. Non-trivial = (>=2 sequences or >=10 rows) and one of {max_ops>1, opcode_base!=13, unknown opcode, v5 format with >=3 content types}; distinct by choice string."
+        "generated headers (versions 2-5, min_inst_len 1-255, max_ops 1-255, line_base -128..127, line_range 1-255, opcode_base 1-255 with arbitrary lengths for non-standard opcodes, v5 directory/file entry formats with 1-7 content types in any order and every supported path/number form, v2-4 tables, header padding, non-zero section offset) x generated multi-sequence programs over the full opcode set (special opcodes incl. all values, every standard opcode, unknown standard/extended opcodes, define_file, padded extended ops, boundary operands) kept well-formed (set_address non-decreasing, below the tombstone range); second mode: all 256 opcode byte values after a generated prefix per header; third mode: arbitrary bytes behind a valid header (validity clauses + model agreement where defined); fourth mode: generated programs with tombstoned regions (set_address to -1/-2 or backwards, register-setting and row-emitting operations inside the region, a new valid address afterwards): rows equal the state machine under gimli's documented suppression policy (address and op_index frozen, rows withheld, every other register - flags, discriminator, line, file, isa - evolving and reset as the state machine says). Oracle: line-number state machine (linemodel.rs): rows on every accessor, header fields, directory/file tables with version-dependent index bases, sequences() bounds, resume_from in reverse and forward order. Non-trivial = (>=2 sequences or >=10 rows) and one of {max_ops>1, opcode_base!=13, unknown opcode, v5 format with >=3 content types}; distinct by choice string."
     }
     fn assumptions(&self) -> Vec<&'static str> {
         vec![
@@ -702,6 +707,43 @@ impl Prop for C04 {
                     })?;
                 }
                 Ok(())
+            }
+            2 => {
+                // a generated program with tombstoned regions: set_address into the tombstone range (or backwards),
+                // register-setting and row-emitting operations inside the region, then (mostly) a new valid address
+                cx.label("mode:tombstones");
+                let mut ops = gen_program(ch, &h);
+                let m = mask(h.address_size);
+                let emitters: Vec<LOp> = ops.iter().filter(|o| matches!(o, LOp::Special(_) | LOp::Copy)).cloned().collect();
+                let setters: Vec<LOp> = ops.iter().filter(|o| matches!(o, LOp::SetPrologueEnd | LOp::SetEpilogueBegin | LOp::SetBasicBlock | LOp::SetIsa(_) | LOp::AdvanceLine(_) | LOp::SetFile(_) | LOp::SetColumn(_) | LOp::NegateStmt | LOp::AdvancePc(_) | LOp::ConstAddPc | LOp::FixedAdvancePc(_))).cloned().collect();
+                let k = 1 + ch.below(3);
+                for j in 0..k {
+                    let at = ch.below(ops.len() + 1);
+                    let mut ins = vec![LOp::SetAddress(ch.pick(&[m, m - 1, m, 0, 1]), 0)];
+                    for _ in 0..ch.below(5) {
+                        ins.push(match ch.below(4) {
+                            0 => LOp::SetDiscriminator(1 + ch.below(9) as u64, 0),
+                            1 if !emitters.is_empty() => emitters[ch.below(emitters.len())].clone(),
+                            _ if !setters.is_empty() => setters[ch.below(setters.len())].clone(),
+                            _ => LOp::SetDiscriminator(3, 0),
+                        });
+                    }
+                    if !emitters.is_empty() {
+                        ins.push(emitters[ch.below(emitters.len())].clone());
+                    }
+                    if ch.chance(200) {
+                        ins.push(LOp::SetAddress((0x10_0000u64 * (j as u64 + 1) + ch.below(64) as u64) & (m >> 1), 0));
+                        if !emitters.is_empty() {
+                            ins.push(emitters[ch.below(emitters.len())].clone());
+                        }
+                    }
+                    let tail = ops.split_off(at);
+                    ops.extend(ins);
+                    ops.extend(tail);
+                }
+                let prog = encode_program(&ops, &h, big);
+                cx.sample_with(|| format!("program with tombstoned regions {:?} header v{} addr{} opcode_base={}", ops, h.version, h.address_size, h.opcode_base));
+                check_any_input(&h, big, &prog, cx)
             }
             1 => {
                 cx.label("mode:any-input");
